@@ -223,7 +223,7 @@ func panicSite(p *vx.PanicInfo) string {
 }
 
 // dominantSite: the non-helper cog function occurring most often among the
-// innermost printed frames (ties: the outermost one).
+// innermost printed frames (ties: the innermost one).
 func dominantSite(stack string) string {
 	whole := stack
 	if i := strings.Index(stack, "frames elided"); i > 0 {
@@ -241,8 +241,8 @@ func dominantSite(stack string) string {
 		}
 		count[f]++
 	}
-	for _, f := range fr { // innermost first: ">=" keeps the outermost of equals
-		if count[f] > 0 && (best == "?" || count[f] >= count[best]) {
+	for _, f := range fr { // innermost first: ">" keeps the innermost of equals
+		if count[f] > 0 && (best == "?" || count[f] > count[best]) {
 			best = f
 		}
 	}
